@@ -258,7 +258,7 @@ def handleFdWithoutPreviousMetadata (first : Bool) (off : Nat) (data : List UInt
         addPacket (mkNak p.conf 0 p.progress segs)
 
 /-- `_handle_eof_without_previous_metadata` (dest.py:596-612) -/
-def handleEofWithoutPreviousMetadata (env : Env) (cks : List UInt8) (size : Nat) : DM Unit := do
+def handleEofWithoutPreviousMetadata (env : Env) (cond : Nat) (cks : List UInt8) (size : Nat) : DM Unit := do
   modP fun p => { p with progress := size, fileSizeEof := some size, crc32 := cks,
                          metadataMissing := true }
   if size > 0 then
@@ -267,6 +267,13 @@ def handleEofWithoutPreviousMetadata (env : Env) (cks : List UInt8) (size : Nat)
     match (← getP).tid with
     | none => throw .assertionError
     | some tid => emitInd (.eofRecv tid)
+  if cond ≠ ccNoError then
+    -- EOF (cancel): cancel response procedure, the remote entity is the fault location
+    match (← getP).remoteCfg with
+    | none => throw .assertionError
+    | some rc =>
+      triggerNoticeOfCompletionCanceled cond rc.entityId
+      modP fun p => { p with fin := { p.fin with deliv := dcIncomplete } }
   prepareEofAckPacket
   modify fun s => { s with step := .SENDING_EOF_ACK_PDU }
 
@@ -412,8 +419,8 @@ def handleWaitingForMissingMetadata (env : Env) (pkt : Option Pdu) : DM Unit := 
       resetNakActivityParameters env
       if (← get).step = .RECEIVING_FILE_DATA then
         modify fun s => { s with step := .WAITING_FOR_MISSING_DATA }
-  | some (.eof _ _ cks size _) =>
-    handleEofWithoutPreviousMetadata env cks size
+  | some (.eof _ cond cks size _) =>
+    handleEofWithoutPreviousMetadata env cond cks size
     if (← getP).deferredActive then resetNakActivityParameters env
   | some _ => pure ()
 
@@ -668,9 +675,9 @@ def idleFsm (env : Env) (pkt : Option Pdu) : DM Unit :=
   | some (.fd h off data) => do
     commonFirstPacketNotMetadataPduHandler env h
     handleFdWithoutPreviousMetadata true off data
-  | some (.eof h _ cks size _) => do
+  | some (.eof h cond cks size _) => do
     commonFirstPacketNotMetadataPduHandler env h
-    handleEofWithoutPreviousMetadata env cks size
+    handleEofWithoutPreviousMetadata env cond cks size
   | some (.md h closure cks size sname dname msgs) =>
     startTransaction env h closure cks size sname dname msgs
   | some _ => throw .valueError
